@@ -229,6 +229,7 @@ class Hooks:
         self.interesting = set()  # slots holding a module-built / reinitialised two-network state
         self.nontrivial = False
         self.batch_aux = []       # (epoch, batch, max |phase aux_bias|) seen by a callback at every on_batch_end of the current fit
+        self.cut = False          # set when the implementation's outcome is unconstrained by the property and the model cannot follow it: the history ends
 
     def theorem(self, op, comp):
         return {"construct": "C20_sizes", "constructFrom": "C20_module, C20_module_sizes_from_module, C20_module_args_ignored", "write": "C20_no_alias", "writeModule": "C20_no_alias",
@@ -290,6 +291,18 @@ class Hooks:
         # AUXILIARY (audit2-4 C20-2): registration order and names of the parameters are C03 / C06's invariant (vector_to_grads), not a clause of C20
         ctx.point("every network keeps its parameters registered in the documented order", "aux", all(order_ok(x) for x in nets), True, cs, exact=True,
                   sig=f"{t}/parameter-order")
+        # audit 3 (B6, same class in the histories): num_hidden = 0 of a BinaryRBM-based network means num_visible in the present code (an
+        # artefact of `if num_hidden`, documented nowhere and not "the requested shape"). An implementation that keeps the requested 0, or
+        # refuses it, is as good: recorded, and the history ends here (the model, which codes the 0 -> n rule, cannot follow)
+        if op.get("nh") == 0 and ((t == "construct" and op["kind"] in ("pos", "cplx")) or (t == "mkModule" and op["k"] == "binary")):
+            objs = []
+            if err is None:
+                objs = [getattr(real.models[op["slot"]], n) for n in real.models[op["slot"]].networks] if t == "construct" else [real.modules[op["mslot"]]]
+            coded = err is None and all(int(x.num_hidden) == int(op["nv"]) for x in objs)
+            ctx.info(f"{t}/num_hidden=0 means num_visible (coded rule of BinaryRBM, not documented)", coded, True)
+            if not coded:
+                self.cut = True
+                return
         if t == "construct" and err is None:
             st = real.models[op["slot"]]
             self.interesting.discard(op["slot"])
@@ -689,6 +702,18 @@ def _doc_sizes(case):
     return nh, na, (nv, H, A)
 
 
+def _judged_sizes(case, nh, na):
+    """audit 3 (B6): which of (num_visible, num_hidden, num_aux) the property text / the documentation FIX for this call: "networks of the
+    requested shapes" = sizes given explicitly and non-zero; the one documented default is num_hidden None -> num_visible of
+    PositiveWaveFunction / ComplexWaveFunction ("Defaults to the number of visible units").  Not fixed anywhere (recorded only):
+    BinaryRBM's `0 -> num_visible`, every default of PurificationRBM / DensityMatrix / a bare BinaryRBM, zero sizes (malformed)."""
+    if case["nv"] <= 0:
+        return [False, False, False]
+    jh = (nh is not None and nh > 0) or (nh is None and case["via"] in ("pos", "cplx"))
+    ja = True if case["k"] == "binary" else (na is not None and na > 0)   # a BinaryRBM has no auxiliary layer (the harness's own 0)
+    return [True, jh, ja]
+
+
 def _net_obs(net):
     isp = hasattr(net, "weights_U")
     return {"W": bits(net.weights_W if isp else net.weights), "U": bits(net.weights_U) if isp else None,
@@ -713,12 +738,16 @@ def initlaw_case(ctx, case):
         nets, form, m_nh, m_na = [net], "ctor", nh_arg, na_arg
     elif via == "init":
         net = Ctor(*args, **{**kw, "zero_weights": not zw})   # the constructor's option must not be remembered
+        shapes0 = [[n_, list(p_.shape)] for n_, p_ in net.named_parameters()]
         with RandnRecorder() as rec:
             if case["zw"] is None:
                 net.initialize_parameters()
             else:
                 net.initialize_parameters(zero_weights=case["zw"])
         nets, form, m_nh, m_na = [net], "init", doc[1], doc[2]
+        # "reinitialising redraws all networks' parameters with unchanged shapes" - on the implementation, whatever the sizes are
+        ctx.oracle(f"initlaw init/{k}: initialize_parameters keeps every parameter's shape", shapes0 == [[n_, list(p_.shape)] for n_, p_ in net.named_parameters()],
+                   cs, sig=f"initlaw/{k}/reinit-shapes", theorem="C20_reinit")
     else:  # a state built from sizes: every network in `networks` order runs the constructor of its RBM class
         St = {"pos": PositiveWaveFunction, "cplx": ComplexWaveFunction, "dens": DensityMatrix}[via]
         skw = {a: b for a, b in kw.items() if a != "zero_weights"}
@@ -732,8 +761,13 @@ def initlaw_case(ctx, case):
         obs = _net_obs(net)
         tag = f"initlaw {via}/{k}" + (f" net{idx}" if len(nets) > 1 else "")
         # property oracles, independent of the model
-        ctx.oracle(f"{tag}: sizes are the documented defaults", obs["sizes"] == list(doc), cs,
-                   {"sizes": obs["sizes"], "documented": list(doc)}, sig=f"initlaw/{k}/default-sizes", theorem="C20_default_sizes")
+        # audit 3 (B6): only the sizes the property / the documentation fix are judged (see _judged_sizes); the CODED defaults
+        # (BinaryRBM 0 -> num_visible, num_aux omitted -> num_visible, ...) are recorded only
+        judged = _judged_sizes(case, nh_arg, na_arg)
+        pick = lambda v: [x for x, j in zip(v, judged) if j]   # noqa: E731
+        ctx.oracle(f"{tag}: the requested sizes (and the documented default of num_hidden) are the network's sizes", pick(obs["sizes"]) == pick(list(doc)), cs,
+                   {"sizes": obs["sizes"], "requested_or_documented": list(doc), "judged": judged}, sig=f"initlaw/{k}/default-sizes", theorem="C20_default_sizes")
+        ctx.info(f"initlaw/{k}/coded-default-sizes", obs["sizes"], list(doc))
         bz = all(x == 0 for key in ("b", "c", "d") if obs[key] is not None for x in obs[key])
         ctx.oracle(f"{tag}: all biases exactly zero", bz, cs, sig=f"initlaw/{k}/biases-zero", theorem="C20_init_values")
         if zw:
@@ -741,19 +775,22 @@ def initlaw_case(ctx, case):
             ctx.oracle(f"{tag}: zero_weights=True gives all-zero weights", wz, cs, sig=f"initlaw/{k}/zero-weights", theorem="C20_init_zero_weights")
         if ctx.driver is not None:
             r = ctx.driver.call("c20.init_values", kind=k, form=form, nv=case["nv"], nh=m_nh, na=m_na, zero=zw, draws=[f2b(x) for x in rec.stream[pos:]])
-            ctx.point(f"{tag}: resolved sizes (num_visible, num_hidden, num_aux)", "property", obs["sizes"], r["sizes"], cs, exact=True,
-                      sig=f"initlaw/{k}/sizes", theorem="C20_default_sizes")
-            ctx.point(f"{tag}: biases (bit patterns, lengths)", "property", [obs["b"], obs["c"], obs["d"]], [r["b"], r["c"], r["d"]], cs, exact=True,
-                      sig=f"initlaw/{k}/biases", theorem="C20_init_values, C20_default_sizes")
-            # how the stream is consumed and scaled is not in the property text: auxiliary
+            ctx.point(f"{tag}: resolved sizes (num_visible, num_hidden, num_aux) - the requested / documented ones", "property", pick(obs["sizes"]), pick(r["sizes"]),
+                      cs, exact=True, sig=f"initlaw/{k}/sizes", theorem="C20_default_sizes")
+            ctx.info(f"initlaw/{k}/sizes:coded-defaults", obs["sizes"], r["sizes"])
+            if all(judged):
+                ctx.point(f"{tag}: biases (bit patterns, lengths)", "property", [obs["b"], obs["c"], obs["d"]], [r["b"], r["c"], r["d"]], cs, exact=True,
+                          sig=f"initlaw/{k}/biases", theorem="C20_init_values, C20_default_sizes")
+            else:   # the LENGTHS follow the coded defaults (not fixed by the property); that every bias is zero is the oracle above
+                ctx.info(f"initlaw/{k}/biases:lengths-of-coded-defaults", [obs["b"], obs["c"], obs["d"]], [r["b"], r["c"], r["d"]])
+            # audit 3 (B10): the property says "random weights" - how the random stream is consumed and scaled (z / sqrt(num_visible),
+            # row-major, W before U, torch.randn at all) is not constrained: recorded only, no verdict (was auxiliary)
             same_shape = [len(obs["W"]), None if obs["U"] is None else len(obs["U"])] == [len(r["W"]), None if r["U"] is None else len(r["U"])]
-            ctx.point(f"{tag}: weights == recorded draws / sqrt(num_visible), row-major, W before U (bit for bit)", "aux",
-                      [obs["W"], obs["U"], same_shape], [r["W"], r["U"], True], cs, exact=True, sig=f"initlaw/{k}/values",
-                      theorem="C20_init_values, C20_init_zero_weights")
+            ctx.info(f"initlaw/{k}/values (weights == recorded draws / sqrt(num_visible), row-major, W before U)",
+                     [obs["W"], obs["U"], same_shape], [r["W"], r["U"], True])
             pos += r["consumed"]
     if ctx.driver is not None:
-        ctx.point(f"initlaw {via}/{k}: number of standard-normal draws consumed", "aux", len(rec.stream), pos, cs, exact=True,
-                  sig=f"initlaw/{k}/draw-count", theorem="C20_init_draw_count, C20_init_zero_weights")
+        ctx.info(f"initlaw/{k}/draw-count (number of standard-normal draws consumed)", len(rec.stream), pos)
     ctx.case({"initlaw": {a: case[a] for a in ("k", "via", "form", "nv", "nh", "na", "nh_given", "na_given", "zw")}},
              nontrivial=case["nv"] > 0 and not zw, sample={"initlaw": via, "k": k, "form": case["form"], "calls": rec.calls})
 
